@@ -14,6 +14,7 @@ typedef struct { int _v; } vec_double_u;
 /* ghost record of the DataView that is constructed (its arguments), and of calls made */
 extern int gh_views; extern size_t gh_view_count_rank, gh_view_offset_rank; extern ndsize_t gh_view_count_k, gh_view_offset_k; extern const ndsize_t *gh_view_extent_dims;
 extern int gh_tagged_calls, gh_backend_feature_gets, gh_backend_reference_gets; extern ndsize_t gh_backend_get_index;
+extern RangeMatch gh_goc_match, gh_tagged_match, gh_fd_match;   /* ghost records of the range mode handed down the call chain */
 /* DataView(array, count, offset) as a value: the constructor's contract (proved for the constructor in C17: DataView_ctor)
    restated on the construction expression, plus the ghost record.  ASSUMED here. */
 NIX_THROWS DataView mk_DataView_3(DataArray da, NDSize count, NDSize offset)
@@ -30,7 +31,8 @@ __CPROVER_assigns(nix_exc, gh_views, gh_view_count_rank, gh_view_offset_rank, gh
 NIX_THROWS void getOffsetAndCount_tag(const Tag *tag, const DataArray *array, NDSize *offset, NDSize *count, RangeMatch match)
 __CPROVER_requires(__CPROVER_w_ok(offset, sizeof(NDSize)) && __CPROVER_w_ok(count, sizeof(NDSize)) && nix_exc == EXC_NONE)
 __CPROVER_ensures(nix_exc == EXC_NONE ==> (NDV_FRESH(*offset) && NDV_FRESH(*count)))
-__CPROVER_assigns(nix_exc; *offset; *count)
+__CPROVER_ensures(gh_goc_match == match)          /* ghost record: the range mode the index computation is asked for */
+__CPROVER_assigns(nix_exc, gh_goc_match; *offset; *count)
 ;
 static inline ndsize_t Tag_featureCount(const Tag *t)
 { return t->feature_count; }
@@ -84,11 +86,12 @@ __CPROVER_ensures(/*data-returned-only-for-a-block-inside-the-array*/ nix_exc ==
                   gh_view_count_rank == array->extent.rank && gh_view_offset_rank == array->extent.rank &&
                   (ghost_k < array->extent.rank ==> FITS(gh_view_offset_k, gh_view_count_k, array->extent.dims[ghost_k]))))
 __CPROVER_ensures(/*no-view-on-error*/ nix_exc != EXC_NONE ==> gh_views == __CPROVER_old(gh_views))
-NIX_CANARY(taggedData_tag) __CPROVER_assigns(nix_exc, gh_views, gh_view_count_rank, gh_view_offset_rank, gh_view_count_k, gh_view_offset_k, gh_view_extent_dims)
+__CPROVER_ensures(/*the-requested-range-mode-is-the-one-the-indices-are-computed-with*/ gh_goc_match == match)
+NIX_CANARY(taggedData_tag) __CPROVER_assigns(nix_exc, gh_views, gh_view_count_rank, gh_view_offset_rank, gh_view_count_k, gh_view_offset_k, gh_view_extent_dims, gh_goc_match)
 ;
 /* the call taggedData(tag, data, match) made by featureData, counted (ghost) so that the dispatch is observable */
 static inline DataView taggedData_tag_counted(const Tag *tag, const DataArray *array, RangeMatch match)
-{ gh_tagged_calls++; return taggedData_tag(tag, array, match); }
+{ gh_tagged_calls++; gh_tagged_match = match; return taggedData_tag(tag, array, match); }
 /* DataView featureData(const Tag &tag, const Feature &feature, RangeMatch match) */
 NIX_THROWS DataView featureData_tag(const Tag *tag, const Feature *feature, RangeMatch match)
 __CPROVER_requires(NIX_SEL(featureData_tag, __CPROVER_is_fresh(tag, sizeof(Tag)) && __CPROVER_is_fresh(feature, sizeof(Feature)) && NDV_FRESH(feature->data.extent),
@@ -102,14 +105,17 @@ __CPROVER_ensures(/*untagged-and-indexed-not-cut*/ (feature->link != LinkType_Ta
 __CPROVER_ensures(/*untagged-and-indexed-returned-whole*/ (!feature->data.is_none && feature->link != LinkType_Tagged) ==> (nix_exc == EXC_NONE && gh_views == __CPROVER_old(gh_views) + 1 &&
                   gh_view_extent_dims == feature->data.extent.dims && gh_view_count_rank == feature->data.extent.rank && gh_view_offset_rank == feature->data.extent.rank &&
                   (ghost_k < feature->data.extent.rank ==> (gh_view_offset_k == 0 && gh_view_count_k == feature->data.extent.dims[ghost_k]))))
-NIX_CANARY(featureData_tag) __CPROVER_assigns(nix_exc, gh_views, gh_view_count_rank, gh_view_offset_rank, gh_view_count_k, gh_view_offset_k, gh_view_extent_dims, gh_tagged_calls)
+__CPROVER_ensures(/*tagged-feature-cut-in-the-requested-range-mode*/ (!feature->data.is_none && feature->link == LinkType_Tagged) ==> gh_tagged_match == match)
+__CPROVER_ensures(NIX_SEL(featureData_tag, 1, gh_fd_match == match))      /* as a callee: ghost record of the mode it was asked for */
+NIX_CANARY(featureData_tag) __CPROVER_assigns(nix_exc, gh_views, gh_view_count_rank, gh_view_offset_rank, gh_view_count_k, gh_view_offset_k, gh_view_extent_dims, gh_tagged_calls, gh_tagged_match, gh_fd_match, gh_goc_match)
 ;
 /* DataView featureData(const Tag &tag, ndsize_t feature_index, RangeMatch match) */
 NIX_THROWS DataView featureData_tag_index(const Tag *tag, ndsize_t feature_index, RangeMatch match)
 __CPROVER_requires(__CPROVER_is_fresh(tag, sizeof(Tag)) && nix_exc == EXC_NONE && gh_views < 1000 && gh_tagged_calls < 1000 && gh_backend_feature_gets == 0)
 __CPROVER_ensures(/*index-past-the-end-throws*/ feature_index >= tag->feature_count ==> nix_exc == EXC_OutOfBounds)
 __CPROVER_ensures(/*valid-index-selects-that-feature*/ feature_index < tag->feature_count ==> (gh_backend_feature_gets == 1 && gh_backend_get_index == feature_index))
-NIX_CANARY(featureData_tag_index) __CPROVER_assigns(nix_exc, gh_views, gh_view_count_rank, gh_view_offset_rank, gh_view_count_k, gh_view_offset_k, gh_view_extent_dims, gh_tagged_calls, gh_backend_feature_gets, gh_backend_get_index)
+__CPROVER_ensures(/*the-feature-is-retrieved-in-the-requested-range-mode*/ feature_index < tag->feature_count ==> gh_fd_match == match)
+NIX_CANARY(featureData_tag_index) __CPROVER_assigns(nix_exc, gh_views, gh_view_count_rank, gh_view_offset_rank, gh_view_count_k, gh_view_offset_k, gh_view_extent_dims, gh_tagged_calls, gh_backend_feature_gets, gh_backend_get_index, gh_tagged_match, gh_fd_match, gh_goc_match)
 ;
 
 /* ---- getOffsetAndCount(const Tag&, ...): the per-dimension body of the assembly loop (region unit) ----
